@@ -225,28 +225,31 @@ Definition direct_fetch (u : upreq) (answers : list oresult) : response * list u
 
 (* ---- dedupFetch + processRequest ------------------------------------------------------- *)
 
+(* what getFromCacheOrFetch / dedupFetch / processRequest make of fetchUpstream's result for a GET *)
+Definition finish_get (plain : upreq) (hs : hit_status) (o : option entry * fres * list oresult * list upreq)
+  : option entry * response * list upreq :=
+  let '(st', r, rest, ups) := o in
+  match r with
+  | FCached e us => (st', RStored hs us e, ups)
+  | FDirect _ | FNotCacheable =>
+      (* ErrNotCacheable: the response at hand is dropped, the client's own request is sent again *)
+      let '(resp, ups2) := direct_fetch plain rest in (st', resp, ups ++ ups2)
+  | FFail => (st', RBadGateway, ups)
+  end.
+
 (* GET: singleflight with this request alone in its flight, getFromCacheOrFetch *)
 Definition get_step (cfg : pconfig) (now : Z) (st : option entry) (h : cmap)
            (answers : list oresult) (flt : faults)
   : option entry * response * list upreq :=
   let plain := {| u_meth := GET; u_hdr := h |} in
-  let finish (hs : hit_status) (o : option entry * fres * list oresult * list upreq) :=
-    let '(st', r, rest, ups) := o in
-    match r with
-    | FCached e us => (st', RStored hs us e, ups)
-    | FDirect _ | FNotCacheable =>
-        (* ErrNotCacheable: the response at hand is dropped, the client's own request is sent again *)
-        let '(resp, ups2) := direct_fetch plain rest in (st', resp, ups ++ ups2)
-    | FFail => (st', RBadGateway, ups)
-    end in
   match st with
   | Some e =>
       if f_lookup_err flt then
         let '(resp, ups) := direct_fetch plain answers in (vanished flt st, resp, ups)
       else if fresh e now then (st, RStored HsHit 0 e, [])
-      else finish HsRevalidated
+      else finish_get plain HsRevalidated
              (fetch_upstream cfg now GET st {| u_meth := GET; u_hdr := set_validators e h |} answers flt)
-  | None => finish HsMiss (fetch_upstream cfg now GET None plain answers flt)
+  | None => finish_get plain HsMiss (fetch_upstream cfg now GET None plain answers flt)
   end.
 
 (* every other method: not coalesced, fetchUpstream under the method's own key (which never
